@@ -1244,7 +1244,15 @@ func runRespCase(c RespCase, seed int64) RespEv {
 			if e > len(parts) {
 				e = len(parts)
 			}
-			req.Header.Add("Accept", strings.Join(parts[i:e], ", "))
+			// list separators with and without optional whitespace on either side of the comma (RFC 9110 5.6.1)
+			line := ""
+			for k, p := range parts[i:e] {
+				if k > 0 {
+					line += []string{", ", ",", " , ", "\t,\t", " ,"}[r.Intn(5)]
+				}
+				line += p
+			}
+			req.Header.Add("Accept", line)
 		}
 	}
 	ev.Header = strings.Join(req.Header["Accept"], " | ")
